@@ -1,7 +1,7 @@
 """Per-check metadata from which bin/mkmanifest writes MANIFEST.json."""
 
 HOOK_COMMITS = ["3c48510", "e2e1b97", "035de92", "8d2dfbb", "87c61cc", "5f32c19"]
-FIX_COMMITS = ["4036763", "5f5d3b9", "e0b60a8", "6cf1e6b", "6eae605", "8378524", "a71bd21", "3012537", "59d973f", "aa35bd8", "58124f2", "9fc07cf"]
+FIX_COMMITS = ["4036763", "5f5d3b9", "e0b60a8", "6cf1e6b", "6eae605", "8378524", "a71bd21", "3012537", "59d973f", "aa35bd8", "58124f2", "9fc07cf", "5316fe1"]
 
 NOTES = ("One engine: TLA+ specifications under spec/, TLC for the design, Go harness (harness/) for conformance. "
          "Exit 2 (INFRA-ERROR) is never a verdict. known_findings.json lists recorded genuine defects.")
@@ -95,5 +95,15 @@ CHECKS = {
                 "(KeyspaceOrder: replies, final state, windows, log). Sandbox: the globals reachable in every pooled interpreter, enumerated from Go "
                 "before and after 17 adversarial scripts, must equal ScriptEnv!AllowList (judged by TLC).",
         "note": "Cannot prove that an allow-listed function has no escape inside gopher-lua. Known findings: pooled interpreters keep script-made mutations of library tables / existing globals.",
+    },
+    "C09": {
+        "level": "model_checking",
+        "technique": "TLA+ Shrink spec model-checked over every interleaving and kill point; TLC-generated programs and interleaved commands forced through the shrink.* gates on real servers, crash points copy the data directory; recovered dataset compared with the dataset served",
+        "text": "TLC checks ShrunkEquivalent / CrashRecoverable / LiveLogAlwaysGood for the batched rewrite with a concurrent writer at every "
+                "interleaving point and every kill point (403 k states), and refutes them for RENAME, non-idempotent appends and a swap without "
+                "backup recovery. On real servers (datasets from TLC programs plus fillers of every kind so that each model key/id is in its own "
+                "scan batch) the gates park the rewrite between batches while TLC-generated commands are issued; each step of the swap is a crash "
+                "point; the dataset served at the end must equal what a fresh server recovers from the rewritten log and from each crash copy.",
+        "note": "Kill = copy of the data directory at that instant. Known findings: concurrent RENAME and non-idempotent JSET append (rewrite algorithm).",
     },
 }
